@@ -13,8 +13,9 @@
         stage      1 acyclic / 2 recursion / 3 by-reference parameters / 4 frame pointers,
         reentersOk the `reenters` fields are what `findRecursionPoints` computes from the bodies,
         gen        the model generator `genProg VERSION FP` succeeds,
-        refStrict  (scratch convention) the renamed program is in the fragment of `genProg_correct_ref`
-                   (by-reference parameters under the by-reference discipline R9),
+        refStrict  the renamed program is in the fragment of `genProg_correct_ref` (scratch convention) /
+                   `genProg_correct_fp_ref` (frame pointers): by-reference parameters under the
+                   by-reference discipline R9,
         dynPartial (scratch convention) … in the fragment of `genProg_correct_dyn_partial`.
 
     composed-sexp VERSION FP TEALHEX SEXP…
@@ -94,9 +95,9 @@ def answer (p : Src.Prog) (version : Nat) (fp : Bool) : String :=
   let dynp := match canonicalRename p with
     | some p' => !fp && inFragmentC false p' true
     | none => false
-  -- stage 3 under the by-reference discipline (`genProg_correct_ref`), scratch convention
+  -- stage 3 under the by-reference discipline (`genProg_correct_ref` / `genProg_correct_fp_ref`)
   let refs := match canonicalRename p with
-    | some p' => !fp && inFragmentC false p' true true
+    | some p' => inFragmentC fp p' true true
     | none => false
   s!"fragmentR={showB inF} stage={stageOf p fp} reentersOk={showB (reentersOk p)} gen={gen} renamed={showB ren} dynPartial={showB dynp} refStrict={showB refs}"
 
@@ -120,14 +121,14 @@ def composedWhy (p : Src.Prog) (P : Avm.Program) (version : Nat) (fp : Bool) : S
   | _, _ => ""
 
 /-- `composed=true`: hypotheses of `compile_correct_validated_prog`; `composed=true thm=ref`: those of
-    `compile_correct_validated_prog_ref` (by-reference discipline, scratch convention);
+    `compile_correct_validated_prog_ref` (by-reference discipline, both conventions);
     `composed=partial`: those of `compile_correct_validated_prog_dyn_partial` (run-time addressed
     slots outside the discipline, scratch convention) -/
 def composedAnswer (p : Src.Prog) (P : Avm.Program) (version : Nat) (fp : Bool) : String :=
   match Check.validateComposed version fp p P with
   | .ok true => "composed=true"
   | .ok false =>
-    (match (if fp then (.ok false : Except String Bool) else Check.validateComposed version false p P true true) with
+    (match Check.validateComposed version fp p P true true with
      | .ok true => "composed=true thm=ref"
      | _ =>
        (match (if fp then (.ok false : Except String Bool) else Check.validateComposed version false p P true) with
